@@ -488,7 +488,88 @@ def strip_attr_edits(src):
     return out
 
 
-def apply(pinned_text, current_text, edits, strip_attrs=True, cfg_features=None):
+def split_format_literal(lit):
+    """pieces of a format-string literal token around `{}` placeholders (as Rust literal texts), or None when the literal uses
+    anything but positional `{}` (named / formatted placeholders are not rewritten: the site stays unsupported)"""
+    if not (lit.startswith('"') and lit.endswith('"')):
+        return None
+    body, pieces, cur, i = lit[1:-1], [], '', 0
+    while i < len(body):
+        ch = body[i]
+        if ch == '\\':
+            cur += body[i:i + 2]; i += 2; continue
+        if ch == '{':
+            if body[i:i + 2] == '{{':
+                cur += '{'; i += 2; continue
+            if body[i:i + 2] == '{}':
+                pieces.append(cur); cur = ''; i += 2; continue
+            return None
+        if ch == '}':
+            if body[i:i + 2] == '}}':
+                cur += '}'; i += 2; continue
+            return None
+        cur += ch; i += 1
+    pieces.append(cur)
+    return pieces
+
+
+def auto_ops(c, rules, prefix):
+    """T14 / T15, located in the CURRENT text (like attribute stripping they carry no proof anchors):
+    'fmt'   : format!("a{}b{}c", e1, e2)  ->  fmt_<prefix>_<k>(&(e1), &(e2))   with the contract r == "a" + e1 + "b" + e2 + "c" GENERATED
+              from the literal found in the current text (std::fmt semantics of `{}` on strings / integers);
+    'strlit': "lit".into() / "lit".to_string() / "lit".to_owned()  ->  str_into("lit")   (String from a literal).
+    -> list of (start_byte, end_byte, kind, text, rec)"""
+    st, sig, out = c.sigtext, c.sig, []
+    if 'fmt' in rules:
+        ordinal = 0
+        for k in range(len(st) - 3):
+            if st[k] == 'format' and st[k + 1] == '!' and st[k + 2] == '(' and (k == 0 or st[k - 1] not in ('.', '::')):
+                close = match_close(st, k + 2)
+                name = 'fmt_%s_%d' % (prefix, ordinal)
+                ordinal += 1
+                pieces = split_format_literal(st[k + 3])
+                if pieces is None:
+                    continue   # left as is: Verus will report the macro as unsupported (undecided, never an alarm)
+                # top-level commas
+                commas, depth = [], 0
+                for j in range(k + 3, close):
+                    t = st[j]
+                    if t in OPEN:
+                        depth += 1
+                    elif t in CLOSE:
+                        depth -= 1
+                    elif t == ',' and depth == 0:
+                        commas.append(j)
+                trailing = bool(commas) and commas[-1] == close - 1
+                seps = commas[:-1] if trailing else commas
+                nargs = len(seps)
+                if nargs != len(pieces) - 1:
+                    continue
+                site = {'name': name, 'pieces': pieces, 'nargs': nargs, 'literal': st[k + 3]}
+                if nargs == 0:
+                    out.append((sig[k][1], sig[close][2], 'rep', '%s()' % name, {'tag': 'T14', 'fmt_site': site}))
+                    continue
+                out.append((sig[k][1], sig[seps[0]][2], 'rep', '%s(&(' % name, {'tag': 'T14', 'fmt_site': site}))
+                for j in seps[1:]:
+                    out.append((sig[j][1], sig[j][2], 'rep', '), &(', {'tag': 'T14'}))
+                out.append((sig[commas[-1]][1] if trailing else sig[close][1], sig[close][2], 'rep', '))', {'tag': 'T14'}))
+    for rule in rules:
+        # ('tok', 'a.b()', 'f(a)', tag): every occurrence of the token sequence in the current text is rewritten (current-anchored,
+        # so that deleting or duplicating an occurrence does not lose an anchor)
+        if isinstance(rule, tuple) and rule[0] == 'tok':
+            pat = Src(rule[1]).sigtext
+            n = len(pat)
+            for k in range(len(st) - n + 1):
+                if st[k:k + n] == pat and (k == 0 or st[k - 1] not in ('.', '::')):
+                    out.append((sig[k][1], sig[k + n - 1][2], 'rep', rule[2], {'tag': rule[3] if len(rule) > 3 else 'T15'}))
+    if 'strlit' in rules:
+        for k in range(len(st) - 4):
+            if st[k].startswith('"') and st[k + 1] == '.' and st[k + 2] in ('into', 'to_string', 'to_owned') and st[k + 3] == '(' and st[k + 4] == ')':
+                out.append((sig[k][1], sig[k + 4][2], 'rep', 'str_into(%s)' % st[k], {'tag': 'T15'}))
+    return out
+
+
+def apply(pinned_text, current_text, edits, strip_attrs=True, cfg_features=None, auto=(), auto_prefix=''):
     """-> (annotated_text, records).  Raises AnchorLost."""
     p, c = Src(pinned_text), Src(current_text)
     tr = Transport(p, c)
@@ -543,6 +624,12 @@ def apply(pinned_text, current_text, edits, strip_attrs=True, cfg_features=None)
                 raise ValueError('rep/drop need a range anchor')
             s, t = tr.range_unchanged(r[1], r[2])
             add(s, t, e.kind, e.text, {'tag': e.tag, 'cid': e.cid, 'anchor': repr(e.anchor), 'note': e.note})
+    if auto:
+        explicit = [(o[0], o[1]) for o in ops if o[1] > o[0]]
+        for (s0, e0, kind, text, rec) in auto_ops(c, auto, auto_prefix):
+            if any(a <= s0 and e0 <= b for (a, b) in explicit):
+                continue   # inside a fragment that an explicit edit replaces / drops as a whole
+            add(s0, e0, kind, text, rec)
     ops.sort(key=lambda o: (o[0], 0 if o[0] == o[1] else 1, o[2]))  # at one position: insertions first, then the range edit
     # non-overlap check: a range op may not contain another op
     last_end = -1
